@@ -32,7 +32,10 @@ def abortIface : Iface :=
         let tok := match r.parameters.bind (·.get? "token") with
           | some (.str s) => s
           | _ => ""
-        [.reply (Reply.params (some (.obj [("aborting", .str tok)]))), .fail]
+        let pad : List (String × Json) := match r.parameters.bind (·.get? "pad_bytes") with
+          | some (.int n) => [("pad", .str (String.ofList (List.replicate n.toNat 'p')))]
+          | _ => []
+        [.reply (Reply.params (some (.obj ([("aborting", .str tok)] ++ pad)))), .fail]
       else if r.method == "org.example.abort.SlowReply" then
         let tok := match r.parameters.bind (·.get? "token") with
           | some (.str s) => s
